@@ -9,6 +9,7 @@ PROGS = {"c17sim": ["props/C17/unit.cpp"]}
 KB = 0.001987191          # boltzmann() of the engine simulator (real units)
 TOL = 1e-9
 FIELDS = ["err", "x_rep", "v_rep", "epot", "ekin", "ft", "fr", "f", "energy", "x_ext", "v_ext"]
+MFIELDS = FIELDS + ["saved_x", "saved_v", "awake"]
 
 
 def hx(x):
@@ -57,6 +58,12 @@ def gen_case(r, kind):
         c["lower"], c["upper"] = c["ctr"] - c["P"] / 2, c["ctr"] + c["P"] / 2
         c["width"] = c["P"] / 16
         c["tol"] = c["P"] / r.choice([8.0, 16.0])
+        if r.random() < 0.4:
+            # reflecting boundaries inside the wrapping window (the premise wrap_ok of C17_reflect_inside)
+            c["rlo"] = c["rup"] = 1
+            c["lower"], c["upper"] = c["ctr"] - c["P"] / 4, c["ctr"] + c["P"] / 4
+            if r.random() < 0.5:
+                c["upper"] = c["ctr"] + c["P"] / 2 - c["P"] / 64
     # the imposed history of the variable
     span = c["upper"] - c["lower"] if kind != "periodic" else c["P"]
     lo = c["lower"] - (0.75 * span if kind in ("reflect", "mixed", "narrow") else 0.0)
@@ -201,18 +208,19 @@ def gauss_used(c):
 
 
 def model_line(c, restart=None):
-    """restart = (first engine step of the resumed run, step origin, x_ext, v_ext)"""
+    """every engine step is given to the model (it decides which are awake).
+    restart = (first engine step of the resumed run, step origin, x_ext, v_ext)"""
     tsf = float(c["tsf"])
     ins = []
     gu = gauss_used(c)
     for (j, it, aw) in awake_steps(c):
-        if not aw or (restart is not None and j < restart[0]):
+        if restart is not None and j < restart[0]:
             continue
         e = c["events"][j]
         rnd = c["gauss"][gu[j]] if gu[j] is not None else 0.0
         st = it - (restart[1] if restart is not None else 0)
         ins.append("%d %s %s %s %s %d" % (st, hx(e["x"]), hx(tsf * e["fb"]), hx(tsf * e["fba"]), hx(rnd), e["running"]))
-    rs = "0 0x0p+0 0x0p+0" if restart is None else "1 %s %s" % (hx(restart[2]), hx(restart[3]))
+    rs = "0 0x0p+0 0x0p+0 0" if restart is None else "1 %s %s %d" % (hx(restart[2]), hx(restart[3]), restart[1])
     return "%s %s %s %s %s %s %d %s %s %d %d %s %d %s %s %d %d %s %d %s" % (
         hx(KB), hx(c["temp"]), hx(c["tol"]), hx(c["tau"]), hx(c["damping"]), hx(c["dt"]), c["tsf"],
         hx(c["lower"]), hx(c["upper"]), c["rlo"], c["rup"], hx(c["width"]), c["per"], hx(c["P"]), hx(c["ctr"]),
@@ -258,8 +266,9 @@ def parse_model(line):
     for p in parts[1:]:
         w = p.split()
         rec = {"err": int(w[0])}
-        for n_, t in zip(FIELDS[1:], w[1:]):
+        for n_, t in zip(MFIELDS[1:-1], w[1:]):
             rec[n_] = float.fromhex(t)
+        rec["awake"] = int(w[-1])
         steps.append(rec)
     return prm, steps
 
@@ -315,7 +324,8 @@ def oracles(run, c, recs, scn, first_event=0, resumed=False):
             run.violation("output:unparsable", "unparsable output at engine step %d" % j, rep)
             return
         if not awake:
-            if rec["awake"] or rec["fz"] != 0.0 or rec["energy"] != 0.0 or (prev and (rec["x_rep"] != prev[0]["x_rep"] or rec["x_ext"] != prev[0]["x_ext"])):
+            if rec["awake"] or rec["fz"] != 0.0 or rec["f"] != 0.0 or rec["fr"] != 0.0 or rec["energy"] != 0.0 or \
+               (prev and (rec["x_rep"] != prev[0]["x_rep"] or rec["x_ext"] != prev[0]["x_ext"] or rec["v_ext"] != prev[0]["v_ext"])):
                 run.violation("mts:asleep-step-acts", "at engine step %d (absolute step %d, timeStepFactor %d) the sleeping variable changed or applied a force: %r"
                               % (j, it, c["tsf"], rec), rep)
                 return
@@ -381,10 +391,11 @@ def oracles(run, c, recs, scn, first_event=0, resumed=False):
                 run.violation("time-origin:total-force", "total force %r reported after absolute step %d is not the force %r that acted on the coordinate at that step"
                               % (rec["ft"], it, want), rep)
                 return
-        elif rec["ft"] == 0.0 and abs(F) > 1e-3:
-            run.violation("time-origin:total-force-zero-same-step",
-                          "with an engine that provides same-step total forces the reported total force of the extended coordinate is 0 at absolute step %d while the force acting on it is %r"
-                          % (it, F), rep)
+        elif not close(rec["ft"], -k * d):
+            run.violation("time-origin:total-force-same-step",
+                          "with an engine that provides same-step total forces the reported total force %r at absolute step %d is not the system (spring) force %r on the coordinate at this step"
+                          % (rec["ft"], it, -k * d), rep)
+            return
         # -- the step taken: leapfrog / BAOA, reflection, wrap
         if not rec["err"]:
             vh = v + bigdt * F / m
@@ -428,6 +439,10 @@ def oracles(run, c, recs, scn, first_event=0, resumed=False):
                     run.violation("repeat:jump-start", "after a jump at the repeated absolute step %d the coordinate restarts from %r, not from the (clamped) value %r of the variable"
                                   % (it, rec["x_rep"], clamp(c, e["x"])), rep)
                     return
+                if jumped and rec["v_rep"] != 0.0:
+                    run.violation("repeat:jump-velocity", "after a jump at the repeated absolute step %d the coordinate is re-initialised to the variable's value but keeps the velocity %r of the discarded integration (the initialisation sets 0)"
+                                  % (it, rec["v_rep"]), rep)
+                    return
             elif not prev[0]["err"] and not (resumed and j == first_event):
                 if not (rec["x_rep"] == prev[0]["x_ext"] and rec["v_rep"] == prev[0]["v_ext"]):
                     run.violation("time-origin:value", "value/velocity reported at absolute step %d (%r,%r) are not the ones integrated at the previous update (%r,%r)"
@@ -470,7 +485,7 @@ def resume_oracle(run, c, K, recs, rrecs, scn):
     """resumed run (state saved after engine step K-1, loaded by a new object that executes that step again) vs the uninterrupted run"""
     rep = {"kind": "scenario", "scenario": scn, "resume_at": K}
     aw = awake_steps(c)
-    flds = ["x_rep", "v_rep", "x_ext", "v_ext", "epot", "ekin", "fr", "f", "fz", "energy"] + ([] if c["same"] else ["ft"])
+    flds = ["x_rep", "v_rep", "x_ext", "v_ext", "epot", "ekin", "fr", "f", "fz", "energy", "ft"]
     saved_awake = aw[K - 1][2]
     for n, rr in enumerate(rrecs):
         j = K - 1 + n
@@ -478,7 +493,7 @@ def resume_oracle(run, c, K, recs, rrecs, scn):
         if rr is None or ur is None:
             return
         if bool(rr["awake"]) != aw[j][2]:
-            run.violation("resume:awake-schedule" if saved_awake else "resume:saved-on-sleeping-step",
+            run.violation("resume:awake-schedule",
                           "state saved after engine step %d (absolute step %d) and resumed: at absolute step %d the timeStepFactor-%d variable is %s"
                           % (K - 1, aw[K - 1][1], aw[j][1], c["tsf"], "awake although the step is not a multiple of the factor" if rr["awake"] else "asleep"), rep)
             return
@@ -486,7 +501,7 @@ def resume_oracle(run, c, K, recs, rrecs, scn):
             continue
         if ur["err"] or rr["err"]:
             if ur["err"] != rr["err"]:
-                run.violation("resume:error-differs" if saved_awake else "resume:saved-on-sleeping-step",
+                run.violation("resume:error-differs",
                               "state saved after engine step %d (absolute step %d%s) and resumed: engine step %d raises an error in only one of the resumed/uninterrupted runs"
                               % (K - 1, aw[K - 1][1], "" if saved_awake else ", on which the timeStepFactor-%d variable sleeps" % c["tsf"], j), rep)
             return
@@ -547,17 +562,17 @@ def compare(run, c, tag, scn, impl, mline, mout, first_event=None):
             if not close(a, b, 1e-12):
                 run.mismatch("params:" + nm, {"scenario": scn, "model_case": mline}, a, b)
                 return recs
-    aw = [j - first_event for (j, it, a) in awake_steps(c) if a and j >= first_event]
     exact = True
-    for j, ms in zip(aw, msteps):
-        if j >= len(recs):
-            break
-        rec = recs[j]
+    if len(msteps) != len(recs):
+        run.mismatch("model:steps", {"model_case": mline}, len(recs), len(msteps))
+        return recs
+    for j, (rec, ms) in enumerate(zip(recs, msteps)):
         if rec is None:
             break
+        if rec["awake"] != ms["awake"]:
+            run.mismatch("step:awake", {"scenario": scn, "model_case": mline, "engine_step": j + first_event}, rec["awake"], ms["awake"])
+            return recs
         for fld in FIELDS:
-            if resumed and c["same"] and fld == "ft":
-                continue
             a, b = rec[fld], ms[fld]
             if fld == "err":
                 same = (a == b)
@@ -572,9 +587,13 @@ def compare(run, c, tag, scn, impl, mline, mout, first_event=None):
             return recs
         if rec["err"]:
             break
+    MSTEPS[tag + (":resumed" if resumed else "")] = msteps
     if not resumed:
         run.dist("bit-identical-scenarios" if exact else "scenarios-equal-within-1e-9")
     return recs
+
+
+MSTEPS = {}
 
 
 KINDS = ["free", "free", "frozen", "frozen", "reflect", "reflect", "reflect", "langevin", "periodic", "mixed", "mixed", "narrow", "norun", "drift"]
@@ -605,7 +624,18 @@ def add_resume(r, c):
     """choose a point where the state is saved and a new object resumes (None: no suitable point)"""
     ev = c["events"]
     aw = awake_steps(c)
-    cand = [K for K in range(1, len(ev)) if not ev[K]["boundary"] and (aw[K - 1][2] or r.random() < 0.3)]
+    def sleeping_ok(K):
+        # state saved on a sleeping step: at its first evaluation the new object compares the variable with the saved value (the one of
+        # the last awake step) and refuses a difference above width/2 (colvar::calc_value, not modelled): keep the history below that
+        last = [j for j in range(K) if aw[j][2]]
+        nxt_ = [j for j in range(K, len(ev)) if aw[j][2]]
+        if not last:
+            return False
+        return (not nxt_) or abs(pdiff(c, ev[nxt_[0]]["x"] - ev[last[-1]]["x"])) <= 0.49 * c["width"]
+    cand = [K for K in range(1, len(ev)) if (aw[K - 1][2] or (r.random() < 0.7 and sleeping_ok(K)))]
+    nxt = [K for K in cand if ev[K]["boundary"]]
+    if nxt and r.random() < 0.4:
+        cand = nxt                                           # the restart step is repeated at a run boundary
     if not cand or c["kind"] in ("drift", "drift-twin"):
         return
     c["resume_at"] = r.choice(cand)
@@ -648,7 +678,7 @@ def check(run):
         for f in sorted(os.listdir(cdir)):
             if f.startswith("C17_") and f.endswith(".json"):
                 cases.append(json.load(open(os.path.join(cdir, f))))
-    n = 330 if quick else 30000
+    n = 280 if quick else 30000
     for kk in range(n):
         c = gen_case(r, KINDS[kk % len(KINDS)] if kk < 4 * len(KINDS) else r.choice(KINDS))
         if r.random() < 0.5:
@@ -699,25 +729,27 @@ def check(run):
             if a2 <= 0 or not (3.0 <= a1 / a2 <= 5.5):
                 run.violation("energy:scaling", "frictionless frozen-atom orbit: the amplitude of Ek+Ep is %r with dt=%r and %r with dt/2 (ratio %r, second order means about 4)"
                               % (a1, c["dt"], a2, (a1 / a2) if a2 else float("inf")), {"kind": "scenario", "scenario": jobs[i][2], "twin": jobs[i + 1][2]})
-    # -- resumed runs: against the uninterrupted run (oracle) and against the model started from the saved values (tie)
-    rjobs = []
-    for i, c in enumerate(cases):
-        K = c.get("resume_at")
-        if K is None or i not in allrecs:
-            continue
-        tag = "r%d" % i
-        scn = dict(scns)[tag] if False else None
-        rjobs.append((i, tag))
+    # -- resumed runs: the saved state vs the model's saved_xv (tie), the resumed run against the uninterrupted run (oracle) and
+    #    against the model started from the saved values (tie); sleeping steps included
+    rjobs = [(i, "r%d" % i) for i, c in enumerate(cases) if c.get("resume_at") is not None and i in allrecs]
     scn_by_tag = dict(scns)
-    rlines = []
+    rlines, rinfo = [], []
     for (i, tag) in rjobs:
         c = cases[i]
         K = c["resume_at"]
-        ur = allrecs[i]
         aw = awake_steps(c)
-        # values in the saved state = what was reported at the last awake step up to K-1
-        last = [j for j in range(K) if aw[j][2]][-1]
-        rlines.append(model_line(c, restart=(K - 1, aw[K - 1][1], ur[last]["x_rep"], ur[last]["v_rep"])))
+        sx = sv = None
+        try:
+            for l_ in open(os.path.join(d, "%s.state" % tag)):
+                w_ = l_.split()
+                if len(w_) == 2 and w_[0] == "extended_x":
+                    sx = float(w_[1])
+                if len(w_) == 2 and w_[0] == "extended_v":
+                    sv = float(w_[1])
+        except (OSError, ValueError):
+            pass
+        rinfo.append((sx, sv))
+        rlines.append(model_line(c, restart=(K - 1, aw[K - 1][1], sx if sx is not None else 0.0, sv if sv is not None else 0.0)))
     rc, rmout, e = V.run_lines(model, rlines) if rlines else (0, [], "")
     for n_, (i, tag) in enumerate(rjobs):
         c = cases[i]
@@ -726,19 +758,27 @@ def check(run):
         ok1, recs1 = impl.get(tag, (False, []))
         ok2, recs2 = impl.get(tag + ":resumed", (False, []))
         run.dist("resumed-scenarios")
+        run.dist("resumed: state saved on %s step" % ("an awake" if awake_steps(c)[K - 1][2] else "a sleeping"))
+        if K < len(c["events"]) and c["events"][K]["boundary"]:
+            run.dist("resumed: restart step repeated at a run boundary")
         if not ok1 or not ok2 or len(recs1) != K or any(x is None for x in recs1 + recs2):
             run.mismatch("scenario:resume-run", {"scenario": scn}, "ok=%s/%s records=%d/%d" % (ok1, ok2, len(recs1), len(recs2)), "%d + %d engine steps" % (K, len(c["events"]) - K + 1))
             continue
         if any(x["err"] for x in recs1):
             run.dist("resume-after-error-skipped")
             continue
+        sx, sv = rinfo[n_]
+        ms = MSTEPS.get("c%d" % i)
+        if sx is None or sv is None:
+            run.mismatch("state:extended-missing", {"scenario": scn}, "no extended_x/extended_v in the saved state", "present")
+            continue
+        if ms is not None and len(ms) >= K:
+            if not (close(sx, ms[K - 1]["saved_x"], 1e-12) and close(sv, ms[K - 1]["saved_v"], 1e-12)):
+                run.mismatch("state:saved_xv", {"scenario": scn, "model_case": jobs[i][3], "engine_step": K - 1}, (sx, sv), (ms[K - 1]["saved_x"], ms[K - 1]["saved_v"]))
         resume_oracle(run, c, K, allrecs[i], recs2, scn)
-        if awake_steps(c)[K - 1][2]:
-            impl_r = {tag: (ok2, recs2)}
-            compare(run, c, tag, scn, impl_r, rlines[n_], rmout[n_] if n_ < len(rmout) else "", first_event=K - 1)
-            oracles(run, c, recs2, scn, first_event=K - 1, resumed=True)
-        else:
-            run.dist("resumed-on-sleeping-step (known defect, outside the model: oracle only)")
+        impl_r = {tag: (ok2, recs2)}
+        compare(run, c, tag, scn, impl_r, rlines[n_], rmout[n_] if n_ < len(rmout) else "", first_event=K - 1)
+        oracles(run, c, recs2, scn, first_event=K - 1, resumed=True)
     run.cov["correspondence"].update({"scenarios": len(cases) + len(rjobs), "engine_steps": sum(len(c["events"]) for c in cases)})
 
 
